@@ -102,188 +102,193 @@ def run(ctx: Context) -> None:
     ctx.need('R17.1', tainted >= 1, "the offset is split into hours and minutes by a division of the parsed offset", fi)
 
     # ---- R17.2 the offset string
-    rets = fi.returns()
-    ctx.need('R17.2', len(rets) == 1, "format_time_units_for_ems has one return", fi)
-    units_tokens = fstring_tokens(flow, rets[0].value)
-    ctx.need('R17.2', units_tokens is not None and len(units_tokens) >= 5, "the new unit string is an f-string", fi)
-    lits = [t[1] for t in units_tokens if t[0] == 'lit']
-    fields = [t for t in units_tokens if t[0] == 'field']
-    ok_shape = (len(fields) == 3 and lits == [' since ', ' '] and units_tokens[0][0] == 'field' and units_tokens[-1][0] == 'field')
-    ctx.check('R17.2', ok_shape, "unit string = '<period> since <epoch> <offset>'", fi, rets[0], construct=f"literal parts {lits}")
-    if ok_shape:
-        period, epoch, offset = fields
-        pcv = flow.canon(period[1])
-        ok_period = pcv[0] == 'unpack' and pcv[2] == (0,) and 'cftime' in repr(pcv[1]) and '_datesplit' in repr(pcv[1])
-        ctx.check('R17.2', ok_period, "the period is the one split off the input unit string", fi, rets[0], construct=f"period = {norm_text(flow.resolve(period[1]))}")
-        ctx.check('R17.2', epoch[2] == '%Y-%m-%d %H:%M:%S', "the epoch is written as %Y-%m-%d %H:%M:%S", fi, rets[0],
-                  construct=f"epoch format {epoch[2]!r}")
-        # epoch = reference.replace(tzinfo=UTC).astimezone(FixedOffset(offset_total))
-        ev = flow.resolve(epoch[1])
-        ok_epoch = False
-        if isinstance(ev, ast.Call) and isinstance(ev.func, ast.Attribute) and ev.func.attr == 'astimezone' and len(ev.args) == 1:
-            tz = flow.resolve(ev.args[0])
-            rep = flow.resolve(ev.func.value)
-            ok_tz = (isinstance(tz, ast.Call) and (callee(ctx, fi, tz) or '').endswith('FixedOffset') and len(tz.args) == 1
-                     and (is_source(flow.resolve(tz.args[0])) or
-                          (isinstance(flow.resolve(tz.args[0]), ast.Call) and dotted(flow.resolve(tz.args[0]).func) == 'int'
-                           and is_source(flow.resolve(flow.resolve(tz.args[0]).args[0])))))
-            ok_rep = (isinstance(rep, ast.Call) and isinstance(rep.func, ast.Attribute) and rep.func.attr == 'replace'
-                      and kwarg(rep, 'tzinfo') is not None and norm_text(kwarg(rep, 'tzinfo')).endswith('UTC'))
-            ref = flow.resolve(rep.func.value) if ok_rep else None
-            ok_ref = (isinstance(ref, ast.Call) and (callee(ctx, fi, ref) or '').endswith('num2pydate') and len(ref.args) == 3
-                      and const_value(ref.args[0], None) == 0 and flow.canon(ref.args[1]) == ('param', fi.params[0])
-                      and flow.canon(ref.args[2]) == ('param', fi.params[1]))
-            ok_epoch = ok_tz and ok_rep and ok_ref
-        ctx.check('R17.2', ok_epoch, "the epoch is the original reference instant expressed in the parsed offset (unsigned change: FixedOffset(offset))", fi, rets[0],
-                  construct=f"epoch = {norm_text(ev)}")
-        otoks = fstring_tokens(flow, offset[1])
-        ok_off = False
-        detail = norm_text(flow.resolve(offset[1]))
-        if otoks is not None and len(otoks) == 4 and [t[0] for t in otoks] == ['field', 'field', 'lit', 'field'] and otoks[2][1] == ':':
-            sign, hours, _, minutes = otoks
-            sv = flow.resolve(sign[1])
-            ok_sign = (isinstance(sv, ast.IfExp) and const_value(sv.body, None) == '-' and const_value(sv.orelse, None) == '+'
-                       and isinstance(sv.test, ast.Compare) and len(sv.test.ops) == 1 and isinstance(sv.test.ops[0], ast.Lt)
-                       and const_value(sv.test.comparators[0], None) == 0 and is_source(flow.resolve(sv.test.left))
-                       and sign[2] is None)
-            ok_sign = ok_sign or (isinstance(sv, ast.IfExp) and const_value(sv.body, None) == '+' and const_value(sv.orelse, None) == '-'
-                                  and isinstance(sv.test, ast.Compare) and isinstance(sv.test.ops[0], ast.GtE)
-                                  and const_value(sv.test.comparators[0], None) == 0 and is_source(flow.resolve(sv.test.left)) and sign[2] is None)
-            hc, mc = flow.canon(hours[1]), flow.canon(minutes[1])
-            from_divmod = (hc[0] == 'unpack' and mc[0] == 'unpack' and hc[1] == mc[1] and hc[2] == (0,) and mc[2] == (1,)
-                           and hc[1][0] == 'call' and hc[1][1] == ('global', 'divmod'))
-            div60 = False
-            if from_divmod:
-                dm = [c for c in calls_in(fi) if dotted(c.func) == 'divmod']
-                div60 = len(dm) == 1 and len(dm[0].args) == 2 and const_value(dm[0].args[1], None) == 60
-            ok_fields = hours[2] == '02d' and minutes[2] == '02d'
-            ok_off = ok_sign and from_divmod and div60 and ok_fields
-            detail = f"sign={norm_text(sv)}; hours spec {hours[2]!r}; minutes spec {minutes[2]!r}; divmod(.., 60)={div60}"
-        ctx.check('R17.2', ok_off, "offset = explicit sign + %02d hours + ':' + %02d minutes of divmod(|offset|, 60)", fi, rets[0],
-                  construct=f"offset string: {detail}")
+    with ctx.section('R17.2 the offset string'):
+        rets = fi.returns()
+        ctx.need('R17.2', len(rets) == 1, "format_time_units_for_ems has one return", fi)
+        units_tokens = fstring_tokens(flow, rets[0].value)
+        ctx.need('R17.2', units_tokens is not None and len(units_tokens) >= 5, "the new unit string is an f-string", fi)
+        lits = [t[1] for t in units_tokens if t[0] == 'lit']
+        fields = [t for t in units_tokens if t[0] == 'field']
+        ok_shape = (len(fields) == 3 and lits == [' since ', ' '] and units_tokens[0][0] == 'field' and units_tokens[-1][0] == 'field')
+        ctx.check('R17.2', ok_shape, "unit string = '<period> since <epoch> <offset>'", fi, rets[0], construct=f"literal parts {lits}")
+        if ok_shape:
+            period, epoch, offset = fields
+            pcv = flow.canon(period[1])
+            ok_period = pcv[0] == 'unpack' and pcv[2] == (0,) and 'cftime' in repr(pcv[1]) and '_datesplit' in repr(pcv[1])
+            ctx.check('R17.2', ok_period, "the period is the one split off the input unit string", fi, rets[0], construct=f"period = {norm_text(flow.resolve(period[1]))}")
+            ctx.check('R17.2', epoch[2] == '%Y-%m-%d %H:%M:%S', "the epoch is written as %Y-%m-%d %H:%M:%S", fi, rets[0],
+                      construct=f"epoch format {epoch[2]!r}")
+            # epoch = reference.replace(tzinfo=UTC).astimezone(FixedOffset(offset_total))
+            ev = flow.resolve(epoch[1])
+            ok_epoch = False
+            if isinstance(ev, ast.Call) and isinstance(ev.func, ast.Attribute) and ev.func.attr == 'astimezone' and len(ev.args) == 1:
+                tz = flow.resolve(ev.args[0])
+                rep = flow.resolve(ev.func.value)
+                ok_tz = (isinstance(tz, ast.Call) and (callee(ctx, fi, tz) or '').endswith('FixedOffset') and len(tz.args) == 1
+                         and (is_source(flow.resolve(tz.args[0])) or
+                              (isinstance(flow.resolve(tz.args[0]), ast.Call) and dotted(flow.resolve(tz.args[0]).func) == 'int'
+                               and is_source(flow.resolve(flow.resolve(tz.args[0]).args[0])))))
+                ok_rep = (isinstance(rep, ast.Call) and isinstance(rep.func, ast.Attribute) and rep.func.attr == 'replace'
+                          and kwarg(rep, 'tzinfo') is not None and norm_text(kwarg(rep, 'tzinfo')).endswith('UTC'))
+                ref = flow.resolve(rep.func.value) if ok_rep else None
+                ok_ref = (isinstance(ref, ast.Call) and (callee(ctx, fi, ref) or '').endswith('num2pydate') and len(ref.args) == 3
+                          and const_value(ref.args[0], None) == 0 and flow.canon(ref.args[1]) == ('param', fi.params[0])
+                          and flow.canon(ref.args[2]) == ('param', fi.params[1]))
+                ok_epoch = ok_tz and ok_rep and ok_ref
+            ctx.check('R17.2', ok_epoch, "the epoch is the original reference instant expressed in the parsed offset (unsigned change: FixedOffset(offset))", fi, rets[0],
+                      construct=f"epoch = {norm_text(ev)}")
+            otoks = fstring_tokens(flow, offset[1])
+            ok_off = False
+            detail = norm_text(flow.resolve(offset[1]))
+            if otoks is not None and len(otoks) == 4 and [t[0] for t in otoks] == ['field', 'field', 'lit', 'field'] and otoks[2][1] == ':':
+                sign, hours, _, minutes = otoks
+                sv = flow.resolve(sign[1])
+                ok_sign = (isinstance(sv, ast.IfExp) and const_value(sv.body, None) == '-' and const_value(sv.orelse, None) == '+'
+                           and isinstance(sv.test, ast.Compare) and len(sv.test.ops) == 1 and isinstance(sv.test.ops[0], ast.Lt)
+                           and const_value(sv.test.comparators[0], None) == 0 and is_source(flow.resolve(sv.test.left))
+                           and sign[2] is None)
+                ok_sign = ok_sign or (isinstance(sv, ast.IfExp) and const_value(sv.body, None) == '+' and const_value(sv.orelse, None) == '-'
+                                      and isinstance(sv.test, ast.Compare) and isinstance(sv.test.ops[0], ast.GtE)
+                                      and const_value(sv.test.comparators[0], None) == 0 and is_source(flow.resolve(sv.test.left)) and sign[2] is None)
+                hc, mc = flow.canon(hours[1]), flow.canon(minutes[1])
+                from_divmod = (hc[0] == 'unpack' and mc[0] == 'unpack' and hc[1] == mc[1] and hc[2] == (0,) and mc[2] == (1,)
+                               and hc[1][0] == 'call' and hc[1][1] == ('global', 'divmod'))
+                div60 = False
+                if from_divmod:
+                    dm = [c for c in calls_in(fi) if dotted(c.func) == 'divmod']
+                    div60 = len(dm) == 1 and len(dm[0].args) == 2 and const_value(dm[0].args[1], None) == 60
+                ok_fields = hours[2] == '02d' and minutes[2] == '02d'
+                ok_off = ok_sign and from_divmod and div60 and ok_fields
+                detail = f"sign={norm_text(sv)}; hours spec {hours[2]!r}; minutes spec {minutes[2]!r}; divmod(.., 60)={div60}"
+            ctx.check('R17.2', ok_off, "offset = explicit sign + %02d hours + ':' + %02d minutes of divmod(|offset|, 60)", fi, rets[0],
+                      construct=f"offset string: {detail}")
 
     # ---- R17.3
-    guard = None
-    for n in walk_no_nested(fi.node):
-        if isinstance(n, ast.If) and any(isinstance(s, ast.Raise) for s in n.body) and not n.orelse:
-            t = n.test
-            if isinstance(t, ast.Compare) and len(t.ops) == 1 and isinstance(t.ops[0], ast.NotEq):
-                a, b = flow.resolve(t.left), flow.resolve(t.comparators[0])
-                for x, y in ((a, b), (b, a)):
-                    if isinstance(x, ast.Call) and (callee(ctx, fi, x) or '').endswith('num2pydate') and len(x.args) == 3 \
-                            and const_value(x.args[0], None) == 0 and flow.canon(x.args[1]) == flow.canon(rets[0].value) \
-                            and flow.canon(x.args[2]) == ('param', fi.params[1]) \
-                            and isinstance(y, ast.Call) and (callee(ctx, fi, y) or '').endswith('num2pydate') \
-                            and flow.canon(y.args[1]) == ('param', fi.params[0]):
-                        guard = n
-    ctx.check('R17.3', guard is not None, "the new string is re-parsed (same calendar) and compared with the original reference instant", fi,
-              guard or fi.node, construct=f"re-parse test: {norm_text(guard.test) if guard is not None else 'absent'}")
-    ctx.check('R17.3', guard is not None and cfg.dominates(guard, rets[0]), "that comparison dominates the return; a mismatch raises", fi, rets[0])
+    with ctx.section('R17.3'):
+        guard = None
+        for n in walk_no_nested(fi.node):
+            if isinstance(n, ast.If) and any(isinstance(s, ast.Raise) for s in n.body) and not n.orelse:
+                t = n.test
+                if isinstance(t, ast.Compare) and len(t.ops) == 1 and isinstance(t.ops[0], ast.NotEq):
+                    a, b = flow.resolve(t.left), flow.resolve(t.comparators[0])
+                    for x, y in ((a, b), (b, a)):
+                        if isinstance(x, ast.Call) and (callee(ctx, fi, x) or '').endswith('num2pydate') and len(x.args) == 3 \
+                                and const_value(x.args[0], None) == 0 and flow.canon(x.args[1]) == flow.canon(rets[0].value) \
+                                and flow.canon(x.args[2]) == ('param', fi.params[1]) \
+                                and isinstance(y, ast.Call) and (callee(ctx, fi, y) or '').endswith('num2pydate') \
+                                and flow.canon(y.args[1]) == ('param', fi.params[0]):
+                            guard = n
+        ctx.check('R17.3', guard is not None, "the new string is re-parsed (same calendar) and compared with the original reference instant", fi,
+                  guard or fi.node, construct=f"re-parse test: {norm_text(guard.test) if guard is not None else 'absent'}")
+        ctx.check('R17.3', guard is not None and cfg.dominates(guard, rets[0]), "that comparison dominates the return; a mismatch raises", fi, rets[0])
 
     # ---- R17.4
-    tn = ctx.func(f"{UTILS}.to_netcdf_with_fixes")
-    tflow = ctx.flow(tn)
-    tcfg = ctx.cfg(tn)
-    ds = tn.params[0]
-    copies = [c for c in method_calls(tn, 'copy') if tflow.canon(c.func.value) == ('param', ds)]
-    writes = [c for c in method_calls(tn, 'to_netcdf')]
-    fills = [c for c in calls_in(tn) if callee(ctx, tn, c) == f"{UTILS}.disable_default_fill_value"]
-    fixes = [c for c in calls_in(tn) if callee(ctx, tn, c) == f"{UTILS}.fix_time_units_for_ems"]
-    ctx.need('R17.4', len(writes) == 1 and len(fills) == 1 and len(fixes) == 1, "to_netcdf_with_fixes suppresses fill values, writes, and fixes the time units", tn)
-    wr, fl, fx = writes[0], fills[0], fixes[0]
-    ok_copy = False
-    if copies:
-        st = stmt_of(tn, copies[0])
-        deep = kwarg(copies[0], 'deep')
-        ok_copy = isinstance(st, ast.Assign) and isinstance(st.targets[0], ast.Name) and (deep is None or const_value(deep, None) is False)
-    ctx.check('R17.4', ok_copy, "the dataset is shallow-copied before anything is changed", tn, copies[0] if copies else tn.node,
-              construct=f"copy: {norm_text(copies[0]) if copies else 'absent'}")
+    with ctx.section('R17.4'):
+        tn = ctx.func(f"{UTILS}.to_netcdf_with_fixes")
+        tflow = ctx.flow(tn)
+        tcfg = ctx.cfg(tn)
+        ds = tn.params[0]
+        copies = [c for c in method_calls(tn, 'copy') if tflow.canon(c.func.value) == ('param', ds)]
+        writes = [c for c in method_calls(tn, 'to_netcdf')]
+        fills = [c for c in calls_in(tn) if callee(ctx, tn, c) == f"{UTILS}.disable_default_fill_value"]
+        fixes = [c for c in calls_in(tn) if callee(ctx, tn, c) == f"{UTILS}.fix_time_units_for_ems"]
+        ctx.need('R17.4', len(writes) == 1 and len(fills) == 1 and len(fixes) == 1, "to_netcdf_with_fixes suppresses fill values, writes, and fixes the time units", tn)
+        wr, fl, fx = writes[0], fills[0], fixes[0]
+        ok_copy = False
+        if copies:
+            st = stmt_of(tn, copies[0])
+            deep = kwarg(copies[0], 'deep')
+            ok_copy = isinstance(st, ast.Assign) and isinstance(st.targets[0], ast.Name) and (deep is None or const_value(deep, None) is False)
+        ctx.check('R17.4', ok_copy, "the dataset is shallow-copied before anything is changed", tn, copies[0] if copies else tn.node,
+                  construct=f"copy: {norm_text(copies[0]) if copies else 'absent'}")
 
-    def is_copy(expr) -> bool:
-        return isinstance(expr, ast.Name) and copies and not any(d.kind == 'param' for d in tflow.defs_of(expr)) \
-            and tflow.reaches(expr, lambda n: n is copies[0])
+        def is_copy(expr) -> bool:
+            return isinstance(expr, ast.Name) and copies and not any(d.kind == 'param' for d in tflow.defs_of(expr)) \
+                and tflow.reaches(expr, lambda n: n is copies[0])
 
-    ctx.check('R17.4', bool(fl.args) and is_copy(fl.args[0]), "default fill values are suppressed on the copy, not on the caller's dataset", tn, fl)
-    ctx.check('R17.4', is_copy(wr.func.value), "the copy (with the suppression applied) is what gets written", tn, wr,
-              construct=f"{norm_text(wr.func.value)}.to_netcdf(...)")
-    ctx.check('R17.4', tcfg.dominates(stmt_of(tn, fl), stmt_of(tn, wr)), "the suppression happens before the write", tn, wr,
-              construct='disable_default_fill_value(...) dominates to_netcdf(...)')
-    ok_path = bool(wr.args) and tflow.canon(wr.args[0]) == ('param', tn.params[1]) and any(k.arg is None for k in wr.keywords)
-    ctx.check('R17.4', ok_path, "the file is written to the caller's path with the caller's options", tn, wr)
-    g = [(norm_text(st.test), inb) for st, inb in enclosing_ifs(tn, fx)]
-    ok_fix = ((f"{tn.params[2]} is not None", True) in g and tcfg.dominates(stmt_of(tn, wr), stmt_of(tn, fx))
-              and len(fx.args) == 2 and tflow.canon(fx.args[0]) == ('param', tn.params[1]))
-    nm = tflow.resolve(fx.args[1]) if len(fx.args) == 2 else None
-    ok_nm = (isinstance(nm, ast.Call) and callee(ctx, tn, nm) == f"{UTILS}.data_array_to_name" and len(nm.args) == 2
-             and tflow.canon(nm.args[1]) == ('param', tn.params[2]))
-    ctx.check('R17.4', ok_fix and ok_nm, "the time units of the given time variable are rewritten in the written file, after the write, only when a time variable is given", tn, fx)
-    dd = ctx.func(f"{UTILS}.disable_default_fill_value")
-    sets = [n for n in ast.walk(dd.node) if isinstance(n, ast.Assign) and isinstance(n.targets[0], ast.Subscript)
-            and const_value(n.targets[0].slice, None) == '_FillValue']
-    ok_dd = False
-    for n in sets:
-        g = [norm_text(st.test) for st, inb in enclosing_ifs(dd, n) if inb]
-        txt = ' '.join(g)
-        ok_dd = (is_none(n.value) and norm_text(n.targets[0].value).endswith('.encoding')
-                 and "'_FillValue' not in variable.encoding" in txt and "'_FillValue' not in variable.attrs" in txt
-                 and 'current_dtype == promoted_dtype' in txt)
-    prom = [n for n in ast.walk(dd.node) if isinstance(n, ast.Assign) and norm_text(n.targets[0]) == '(promoted_dtype, fill_value)']
-    cur = [n for n in ast.walk(dd.node) if isinstance(n, ast.Assign) and norm_text(n.targets[0]) == 'current_dtype']
-    ok_dd = ok_dd and len(prom) == 1 and norm_text(prom[0].value) == 'maybe_promote(current_dtype)' and len(cur) == 1 and norm_text(cur[0].value) == 'variable.dtype'
-    ctx.check('R17.4', ok_dd and len(sets) == 1, "_FillValue=None is set in the encoding exactly for variables whose dtype can hold its own missing value (maybe_promote leaves it unchanged: floats, datetimes, timedeltas - the ones xarray would give a default fill) and only when neither encoding nor attrs define one", dd,
-              sets[0] if sets else dd.node)
-    fu = ctx.func(f"{UTILS}.fix_time_units_for_ems")
-    fuflow = ctx.flow(fu)
-    fmts = [c for c in calls_in(fu) if callee(ctx, fu, c) == f"{UTILS}.format_time_units_for_ems"]
-    setters = [c for c in method_calls(fu, 'setncattr')]
-    ok_fu = (len(fmts) == 1 and len(setters) == 1 and const_value(setters[0].args[0], None) == 'units'
-             and fuflow.resolve(setters[0].args[1]) is fmts[0] and len(fmts[0].args) == 2)
-    if ok_fu:
-        u = fuflow.resolve(fmts[0].args[0])
-        while isinstance(u, ast.Call) and (dotted(u.func) or '').endswith('cast'):
-            u = fuflow.resolve(u.args[1])
-        ok_fu = isinstance(u, ast.Call) and isinstance(u.func, ast.Attribute) and u.func.attr == 'getncattr' \
-            and const_value(u.args[0], None) == 'units' and fuflow.canon(u.func.value) == fuflow.canon(setters[0].func.value)
-    opens = [c for c in calls_in(fu) if (callee(ctx, fu, c) or '').endswith('netCDF4.Dataset')]
-    ok_open = len(opens) == 1 and len(opens[0].args) >= 2 and const_value(opens[0].args[1], None) == 'r+' \
-        and fuflow.canon(opens[0].args[0]) == ('param', fu.params[0])
-    ctx.check('R17.4', ok_fu and ok_open, "the units attribute of that variable is replaced by its EMS form in place (file opened r+)", fu,
-              setters[0] if setters else fu.node)
+        ctx.check('R17.4', bool(fl.args) and is_copy(fl.args[0]), "default fill values are suppressed on the copy, not on the caller's dataset", tn, fl)
+        ctx.check('R17.4', is_copy(wr.func.value), "the copy (with the suppression applied) is what gets written", tn, wr,
+                  construct=f"{norm_text(wr.func.value)}.to_netcdf(...)")
+        ctx.check('R17.4', tcfg.dominates(stmt_of(tn, fl), stmt_of(tn, wr)), "the suppression happens before the write", tn, wr,
+                  construct='disable_default_fill_value(...) dominates to_netcdf(...)')
+        ok_path = bool(wr.args) and tflow.canon(wr.args[0]) == ('param', tn.params[1]) and any(k.arg is None for k in wr.keywords)
+        ctx.check('R17.4', ok_path, "the file is written to the caller's path with the caller's options", tn, wr)
+        g = [(norm_text(st.test), inb) for st, inb in enclosing_ifs(tn, fx)]
+        ok_fix = ((f"{tn.params[2]} is not None", True) in g and tcfg.dominates(stmt_of(tn, wr), stmt_of(tn, fx))
+                  and len(fx.args) == 2 and tflow.canon(fx.args[0]) == ('param', tn.params[1]))
+        nm = tflow.resolve(fx.args[1]) if len(fx.args) == 2 else None
+        ok_nm = (isinstance(nm, ast.Call) and callee(ctx, tn, nm) == f"{UTILS}.data_array_to_name" and len(nm.args) == 2
+                 and tflow.canon(nm.args[1]) == ('param', tn.params[2]))
+        ctx.check('R17.4', ok_fix and ok_nm, "the time units of the given time variable are rewritten in the written file, after the write, only when a time variable is given", tn, fx)
+        dd = ctx.func(f"{UTILS}.disable_default_fill_value")
+        sets = [n for n in ast.walk(dd.node) if isinstance(n, ast.Assign) and isinstance(n.targets[0], ast.Subscript)
+                and const_value(n.targets[0].slice, None) == '_FillValue']
+        ok_dd = False
+        for n in sets:
+            g = [norm_text(st.test) for st, inb in enclosing_ifs(dd, n) if inb]
+            txt = ' '.join(g)
+            ok_dd = (is_none(n.value) and norm_text(n.targets[0].value).endswith('.encoding')
+                     and "'_FillValue' not in variable.encoding" in txt and "'_FillValue' not in variable.attrs" in txt
+                     and 'current_dtype == promoted_dtype' in txt)
+        prom = [n for n in ast.walk(dd.node) if isinstance(n, ast.Assign) and norm_text(n.targets[0]) == '(promoted_dtype, fill_value)']
+        cur = [n for n in ast.walk(dd.node) if isinstance(n, ast.Assign) and norm_text(n.targets[0]) == 'current_dtype']
+        ok_dd = ok_dd and len(prom) == 1 and norm_text(prom[0].value) == 'maybe_promote(current_dtype)' and len(cur) == 1 and norm_text(cur[0].value) == 'variable.dtype'
+        ctx.check('R17.4', ok_dd and len(sets) == 1, "_FillValue=None is set in the encoding exactly for variables whose dtype can hold its own missing value (maybe_promote leaves it unchanged: floats, datetimes, timedeltas - the ones xarray would give a default fill) and only when neither encoding nor attrs define one", dd,
+                  sets[0] if sets else dd.node)
+        fu = ctx.func(f"{UTILS}.fix_time_units_for_ems")
+        fuflow = ctx.flow(fu)
+        fmts = [c for c in calls_in(fu) if callee(ctx, fu, c) == f"{UTILS}.format_time_units_for_ems"]
+        setters = [c for c in method_calls(fu, 'setncattr')]
+        ok_fu = (len(fmts) == 1 and len(setters) == 1 and const_value(setters[0].args[0], None) == 'units'
+                 and fuflow.resolve(setters[0].args[1]) is fmts[0] and len(fmts[0].args) == 2)
+        if ok_fu:
+            u = fuflow.resolve(fmts[0].args[0])
+            while isinstance(u, ast.Call) and (dotted(u.func) or '').endswith('cast'):
+                u = fuflow.resolve(u.args[1])
+            ok_fu = isinstance(u, ast.Call) and isinstance(u.func, ast.Attribute) and u.func.attr == 'getncattr' \
+                and const_value(u.args[0], None) == 'units' and fuflow.canon(u.func.value) == fuflow.canon(setters[0].func.value)
+        opens = [c for c in calls_in(fu) if (callee(ctx, fu, c) or '').endswith('netCDF4.Dataset')]
+        ok_open = len(opens) == 1 and len(opens[0].args) >= 2 and const_value(opens[0].args[1], None) == 'r+' \
+            and fuflow.canon(opens[0].args[0]) == ('param', fu.params[0])
+        ctx.check('R17.4', ok_fu and ok_open, "the units attribute of that variable is replaced by its EMS form in place (file opened r+)", fu,
+                  setters[0] if setters else fu.node)
 
     # ---- R17.5
-    base = p.cls(BASE)
-    anc = exception_ancestors(ctx, NSC)
-    for tc in p.implementations(base, 'time_coordinate'):
-        raises = [n for n in ast.walk(tc.node) if isinstance(n, ast.Raise) and n.exc is not None]
-        names = [(dotted(r.exc.func) if isinstance(r.exc, ast.Call) else dotted(r.exc)) or '' for r in raises]
-        ok = bool(raises) and all(n.rsplit('.', 1)[-1] == 'NoSuchCoordinateError' for n in names)
-        ctx.check('R17.5', ok, "a missing time coordinate is reported as NoSuchCoordinateError", tc, raises[0] if raises else tc.node,
-                  construct=f"{tc.short} raises {sorted(set(names))}")
-    sites = []
-    for f in list(p.functions.values()):
-        if not f.qualname.startswith('emsarray.') or f.parent is not None:
-            continue
-        for t in ast.walk(f.node):
-            if isinstance(t, ast.Try):
-                reads = [n for b in t.body for n in ast.walk(b) if isinstance(n, ast.Attribute) and n.attr == 'time_coordinate']
-                if reads:
-                    sites.append((f, t, reads[0]))
-    for f, t, r in sites:
-        names = [n for h in t.handlers for n in _exc_names(h)]
-        ok = any(n in anc for n in names)
-        ctx.check('R17.5', ok, "the handler around a time_coordinate read names an ancestor of NoSuchCoordinateError", f, t,
-                  construct=f"{f.short}: except {names}")
-    for w in p.implementations(base, 'to_netcdf'):
-        wf = ctx.flow(w)
-        cs = [c for c in calls_in(w) if callee(ctx, w, c) == f"{UTILS}.to_netcdf_with_fixes"]
-        ok = (len(cs) == 1 and len(cs[0].args) == 2 and wf.canon(cs[0].args[0]) == ('attr', ('param', 'self'), 'dataset')
-              and wf.canon(cs[0].args[1]) == ('param', w.params[1]) and kwarg(cs[0], 'time_variable') is not None
-              and any(k.arg is None for k in cs[0].keywords))
-        tv = kwarg(cs[0], 'time_variable') if cs else None
-        alts = set(wf.alternatives(tv)) if tv is not None else set()
-        ok = ok and alts == {('attr', ('param', 'self'), 'time_coordinate'), ('const', 'None')}
-        ctx.check('R17.5', ok, "Convention.to_netcdf saves its own dataset with its time coordinate (or None) and the caller's options", w,
-                  cs[0] if cs else w.node)
+    with ctx.section('R17.5'):
+        base = p.cls(BASE)
+        anc = exception_ancestors(ctx, NSC)
+        for tc in p.implementations(base, 'time_coordinate'):
+            raises = [n for n in ast.walk(tc.node) if isinstance(n, ast.Raise) and n.exc is not None]
+            names = [(dotted(r.exc.func) if isinstance(r.exc, ast.Call) else dotted(r.exc)) or '' for r in raises]
+            ok = bool(raises) and all(n.rsplit('.', 1)[-1] == 'NoSuchCoordinateError' for n in names)
+            ctx.check('R17.5', ok, "a missing time coordinate is reported as NoSuchCoordinateError", tc, raises[0] if raises else tc.node,
+                      construct=f"{tc.short} raises {sorted(set(names))}")
+        sites = []
+        for f in list(p.functions.values()):
+            if not f.qualname.startswith('emsarray.') or f.parent is not None:
+                continue
+            for t in ast.walk(f.node):
+                if isinstance(t, ast.Try):
+                    reads = [n for b in t.body for n in ast.walk(b) if isinstance(n, ast.Attribute) and n.attr == 'time_coordinate']
+                    if reads:
+                        sites.append((f, t, reads[0]))
+        for f, t, r in sites:
+            names = [n for h in t.handlers for n in _exc_names(h)]
+            ok = any(n in anc for n in names)
+            ctx.check('R17.5', ok, "the handler around a time_coordinate read names an ancestor of NoSuchCoordinateError", f, t,
+                      construct=f"{f.short}: except {names}")
+        for w in p.implementations(base, 'to_netcdf'):
+            wf = ctx.flow(w)
+            cs = [c for c in calls_in(w) if callee(ctx, w, c) == f"{UTILS}.to_netcdf_with_fixes"]
+            ok = (len(cs) == 1 and len(cs[0].args) == 2 and wf.canon(cs[0].args[0]) == ('attr', ('param', 'self'), 'dataset')
+                  and wf.canon(cs[0].args[1]) == ('param', w.params[1]) and kwarg(cs[0], 'time_variable') is not None
+                  and any(k.arg is None for k in cs[0].keywords))
+            tv = kwarg(cs[0], 'time_variable') if cs else None
+            alts = set(wf.alternatives(tv)) if tv is not None else set()
+            ok = ok and alts == {('attr', ('param', 'self'), 'time_coordinate'), ('const', 'None')}
+            ctx.check('R17.5', ok, "Convention.to_netcdf saves its own dataset with its time coordinate (or None) and the caller's options", w,
+                      cs[0] if cs else w.node)
+
 
 
 # --------------------------------------------------------------------------- checker self-test
